@@ -1,7 +1,7 @@
 import json, os, re, shutil, sys, glob
 agents = sys.argv[1:]
 W3={'W3a':'C12','W3b':'C19','W3c':'C13','W3d':'C01','W3e':'C02','W3f':'C04'}
-prop_of = lambda a: W3.get(a, a[2:5] if a.startswith('W4') or a.startswith('W5') else a[:3])
+prop_of = lambda a: W3.get(a, a[2:5] if a[:2] in ('W4','W5','W6') else a[:3])
 for a in agents:
     for d in sorted(glob.glob('/tmp/seedout/%s/change*' % a)):
         n = d[-1]
@@ -32,7 +32,7 @@ for a in agents:
         meta = {
             'id': sid, 'property': prop_of(a), 'title': title, 'files_changed': files,
             'needs_to_manifest': needs,
-            'base_commit': 'f3e8a53 or aa77271 (/repo main after the fix: commits); the patch applies to /repo HEAD',
+            'base_commit': '/repo main at the time of the wave (after the fix: commits recorded in KNOWN_FINDINGS.txt); the patch applies to /repo HEAD',
             'confirmed_by_me': {
                 'how': 'scratch worktree of /repo; /tmp/seedout/confirm.sh: (1) clean tree + demo passes, (2) patch applies, (3) go build ./..., (4) existing suite of ./io ./morass ./concurrent ./align/pals ./seq ./alphabet ./feat passes with the patch, (5) demo fails with the patch',
                 'result': 'clean+demo pass, apply ok, build ok, existing suite pass, mutated+demo FAIL',
